@@ -39,6 +39,8 @@ impl Tier {
 pub struct Fail {
     pub signature: String,
     pub msg: String,
+    /// the failed clause is time-bounded (liveness): subject to the re-run rule of DESIGN 2.6
+    pub timing: bool,
 }
 
 impl Fail {
@@ -46,11 +48,23 @@ impl Fail {
         Self {
             signature: signature.into(),
             msg: msg.into(),
+            timing: false,
+        }
+    }
+    pub fn timing(signature: impl Into<String>, msg: impl Into<String>) -> Self {
+        Self {
+            signature: signature.into(),
+            msg: msg.into(),
+            timing: true,
         }
     }
 }
 
 pub type Check = Result<(), Fail>;
+
+pub type AsyncCheck<T> = std::sync::Arc<
+    dyn Fn(T) -> futures::future::BoxFuture<'static, (CaseRec, Check)> + Send + Sync,
+>;
 
 #[macro_export]
 macro_rules! ensure {
@@ -137,6 +151,10 @@ fn fnv(s: &str) -> u64 {
         h = h.wrapping_mul(0x100000001b3);
     }
     h
+}
+
+pub fn progress() -> bool {
+    std::env::var("VERIF_PROGRESS").is_ok()
 }
 
 pub fn digest_value(v: &Value) -> u64 {
@@ -546,6 +564,201 @@ impl Ctx {
         }
         self.unfreeze();
         best
+    }
+
+    /// Batch engine for expensive real-time cases (network rigs): `cases` values are drawn from the
+    /// seeded strategy, executed `conc` at a time as tokio tasks, judged in generation order; a failing
+    /// case is re-run alone (timing clauses: three times, DESIGN 2.6) and then shrunk with a capped
+    /// number of re-executions.
+    pub fn sub_async<T, S>(
+        &self,
+        rt: &tokio::runtime::Runtime,
+        sub: &str,
+        cases: usize,
+        conc: usize,
+        strat: S,
+        check: AsyncCheck<T>,
+    ) where
+        T: Debug + Clone + Serialize + DeserializeOwned + Send + 'static,
+        S: Strategy<Value = T>,
+    {
+        let run_alone = |v: &T| -> (CaseRec, Check) {
+            let before = panics::count();
+            let (rec, mut res) = rt.block_on(check(v.clone()));
+            if res.is_ok() {
+                if let Some((loc, msg)) = panics::since(before).into_iter().next() {
+                    res = Err(Fail::new(format!("panic@{}", loc), format!("panic in a task at {}: {}", loc, msg)));
+                }
+            }
+            (rec, res)
+        };
+        let run_alone = |v: &T| -> (CaseRec, Check) {
+            let t = Instant::now();
+            let r = run_alone(v);
+            if progress() {
+                eprintln!(
+                    "[solo] {:.2}s {}",
+                    t.elapsed().as_secs_f64(),
+                    match &r.1 {
+                        Ok(()) => "ok".to_string(),
+                        Err(f) => format!(
+                            "FAIL {} timing={} :: {}",
+                            f.signature,
+                            f.timing,
+                            f.msg.chars().take(1800).collect::<String>()
+                        ),
+                    }
+                );
+            }
+            r
+        };
+        let judge_alone = |v: &T| -> Check {
+            // timing failures must fail three times alone to count
+            let mut last = Ok(());
+            for _ in 0..3 {
+                let (_r, res) = run_alone(v);
+                match &res {
+                    Ok(()) => return Ok(()),
+                    Err(f) if !f.timing => return res,
+                    Err(_) => last = res,
+                }
+            }
+            last
+        };
+        if let Some((s, _)) = &self.replay {
+            if s != sub {
+                return;
+            }
+            let case: T = self.replay_case(sub).unwrap();
+            let v = serde_json::to_value(&case).unwrap_or(Value::Null);
+            let (rec, res) = run_alone(&case);
+            let res = match res {
+                Err(f) if f.timing => judge_alone(&case),
+                r => r,
+            };
+            match self.record(sub, &v, &rec, &res) {
+                Ok(()) => println!("replay: property={} sub={} PASS", self.prop, sub),
+                Err(f) => self.violation(sub, &v, &f),
+            }
+            return;
+        }
+        for case in self.regression_cases::<T>(sub) {
+            let v = serde_json::to_value(&case).unwrap_or(Value::Null);
+            let (rec, res) = run_alone(&case);
+            let res = match res {
+                Err(f) if f.timing => judge_alone(&case),
+                r => r,
+            };
+            if let Err(f) = self.record(sub, &v, &rec, &res) {
+                self.violation(sub, &v, &f);
+            }
+        }
+        if cases == 0 {
+            return;
+        }
+        let mut trees = self.draw(sub, cases, &strat);
+        let values: Vec<T> = trees.iter().map(|t| t.current()).collect();
+        if let Ok(ix) = std::env::var("VERIF_ONLY_CASE") {
+            // developer aid: run one generated case alone and print its verdict
+            if let Some((s, i)) = ix.split_once(':') {
+                if s == sub {
+                    let i: usize = i.parse().unwrap_or(0);
+                    println!("case {i} of {sub}: {}", serde_json::to_string(&values[i]).unwrap_or_default());
+                    let reps: usize = std::env::var("VERIF_ONLY_REPEAT").ok().and_then(|x| x.parse().ok()).unwrap_or(1);
+                    for k in 0..reps {
+                        let (_r, res) = run_alone(&values[i]);
+                        let txt = format!("{:?}", res);
+                        println!("verdict[{k}]: {}", txt.chars().take(600).collect::<String>());
+                    }
+                }
+            }
+            return;
+        }
+        let before = panics::count();
+        let results: Vec<(CaseRec, Check)> = rt.block_on(async {
+            let sem = std::sync::Arc::new(tokio::sync::Semaphore::new(conc.max(1)));
+            let mut handles = Vec::new();
+            for v in values.iter().cloned() {
+                let sem = sem.clone();
+                let check = check.clone();
+                let idx = handles.len();
+                handles.push(tokio::spawn(async move {
+                    let _p = sem.acquire_owned().await.unwrap();
+                    let t = Instant::now();
+                    let r = check(v).await;
+                    if progress() {
+                        eprintln!(
+                            "[case {idx}] {:.2}s {}",
+                            t.elapsed().as_secs_f64(),
+                            match &r.1 {
+                                Ok(()) => "ok".to_string(),
+                                Err(f) => format!("FAIL {} timing={}", f.signature, f.timing),
+                            }
+                        );
+                    }
+                    r
+                }));
+            }
+            let mut out = Vec::new();
+            for h in handles {
+                match h.await {
+                    Ok(r) => out.push(r),
+                    Err(e) => out.push((
+                        CaseRec::default(),
+                        Err(Fail::new("harness-task-panic", format!("case task failed: {e}"))),
+                    )),
+                }
+            }
+            out
+        });
+        let batch_panics = panics::since(before);
+        for (i, (rec, res)) in results.into_iter().enumerate() {
+            let v = serde_json::to_value(&values[i]).unwrap_or(Value::Null);
+            let res = match res {
+                Err(f) if f.timing => {
+                    let r = judge_alone(&values[i]);
+                    if r.is_ok() {
+                        rec.inconclusive_timing();
+                    }
+                    r
+                }
+                Err(f) if f.signature == "harness-task-panic" => {
+                    // reproduce alone to attribute the panic
+                    run_alone(&values[i]).1
+                }
+                r => r,
+            };
+            if let Err(f) = self.record(sub, &v, &rec, &res) {
+                // shrink (capped), re-judging alone
+                let sig = f.signature.clone();
+                let cap = if f.timing { 6 } else { 40 };
+                let minimal = self.shrink_tree(&mut trees[i], cap, |cand| match judge_alone(cand) {
+                    Err(f2) => f2.signature == sig,
+                    Ok(()) => false,
+                });
+                let mv = serde_json::to_value(&minimal).unwrap_or(Value::Null);
+                let mf = match judge_alone(&minimal) {
+                    Err(f2) => f2,
+                    Ok(()) => f.clone(),
+                };
+                if mf.signature == sig {
+                    self.violation(sub, &mv, &mf);
+                } else {
+                    self.violation(sub, &v, &f);
+                }
+                return;
+            }
+        }
+        // a panic in some background task that no case attributed to itself
+        if !batch_panics.is_empty() {
+            let (loc, msg) = batch_panics[0].clone();
+            let f = Fail::new(format!("panic@{}", loc), format!("panic in a background task during batch {sub}: {msg}"));
+            if !self.is_known(&f.signature) {
+                self.violation(sub, &json!({"batch_seed": self.seed, "note": "unattributed panic; re-run the batch"}), &f);
+            } else {
+                self.note_excluded(&f.signature, 1);
+            }
+        }
     }
 
     /// Write evidence and return the process exit code.
